@@ -522,7 +522,7 @@ def main():
             try:
                 ex.extract(gen_i, rep_path + ".iso", havoc=tuple(havoc), light_magic=light_magic, variant="iso:" + iso["fn"])
             except ex.ExtractError as e:
-                undecided("extract (isolated %s): %s" % (iso["fn"], e))
+                fallback("extract (isolated %s): %s" % (iso["fn"], e), "the isolated invocation of %s could not be extracted" % iso["fn"])
             fn_short = "::".join(iso["fn"].split("::")[1:])
             cmd_i, res_i, diags_i, err_i, wall_i = run_verus(gen_i, lib, [iso["module"]], iso_rlimit, threads, None,
                                                              extra=["--verify-function", fn_short], timeout=spec.get("timeout_s", 1500))
@@ -539,7 +539,7 @@ def main():
                         tms += fb.get("time", 0)
             vr_i = res_i.get("verification-results", {})
             if vr_i.get("encountered-vir-error") or not seen:
-                undecided("isolated run of %s did not reach verification" % iso["fn"], "\n".join(d.get("rendered", "") for d in diags_i if d.get("level") == "error"))
+                fallback("\n".join(d.get("rendered", "") for d in diags_i if d.get("level") == "error"), "the isolated run of %s did not reach verification (front-end error or lost hints in that function)" % iso["fn"])
             fails_i = []
             idx_i = FnIndex(gen_i.replace("flounder_v_iso", "flounder_v_iso")) if False else None
             for d in diags_i:
